@@ -382,6 +382,20 @@ func genTmCase(r *rng, wild bool) *tmCase {
 				p = (p + 1 + r.intn(98)) % 100
 			}
 			h.tens, h.units = p/10, p%10
+			if r.chance(1, 4) {
+				// a page with hexadecimal digits (not displayable: data pages) is another page all the same
+				kinds["header-hex-page"]++
+				h.tens, h.units = r.intn(16), 10+r.intn(6)
+				if r.chance(1, 2) {
+					h.tens, h.units = 10+r.intn(6), r.intn(16)
+				}
+				if h.tens == 15 && h.units == 15 {
+					h.units = 14
+				}
+				if page >= 10 && page%10 <= 5 && r.chance(1, 2) {
+					h.tens, h.units = page/10-1, page%10+10 // tens*10+units equals our page number
+				}
+			}
 		} else {
 			h.mag = otherMag(r, mag)
 			p := r.intn(100) // may equal the selected page number: another magazine's page all the same
